@@ -439,6 +439,13 @@ func (s *state) load(pv ssa.Value, t types.Type, in ssa.Instruction) Val {
 	} else {
 		s.checkReads(p.S[1], sizes.Sizeof(t), in)
 	}
+	if len(u.ct.guards) > 0 && !isRawRef(p.S[0]) {
+		if p.Fld != nil {
+			s.checkGuard([]string{p.Fld.heap}, in)
+		} else {
+			s.checkGuard(heapBasesOfType(t), in)
+		}
+	}
 	v := s.loadAt(t, p.S[0], p.S[1], p.Fld)
 	if p.Fld != nil && u.eng.rawFieldOK(p.Fld.heap) {
 		v.S[0] = rawRef
@@ -466,6 +473,7 @@ func (s *state) store(pv ssa.Value, t types.Type, v Val, in ssa.Instruction) {
 		bases = heapBasesOfType(t)
 	}
 	s.checkFrame(bases, ref, off, in)
+	s.checkGuard(bases, in)
 	s.storeAt(t, p.S[0], p.S[1], p.Fld, v)
 }
 
@@ -793,4 +801,36 @@ func (s *state) loopBodyHints(hdr, succ *ssa.BasicBlock) {
 func isNamed(t types.Type, pkg, name string) bool {
 	nt, ok := t.(*types.Named)
 	return ok && nt.Obj().Name() == name && nt.Obj().Pkg() != nil && nt.Obj().Pkg().Path() == pkg
+}
+
+// checkGuard: accesses to lock-protected locations happen only while the
+// guard condition (the lock is held) is true
+func (s *state) checkGuard(bases []string, in ssa.Instruction) {
+	u := s.u
+	if u.ct == nil || len(u.ct.guards) == 0 {
+		return
+	}
+	e := s.contractEnv(u.ct, u.fn, s.entryArgs(), nil)
+	e.st = s.scratch()
+	e.old = s.old
+	for _, g := range u.ct.guards {
+		hit := false
+		for _, le := range g.exprs {
+			tb, ok := e.typeLevelMod(le.e)
+			if !ok {
+				panic(engineErr("guard locations must be type-level (T.f or elems(T)): " + le.src))
+			}
+			for _, t := range tb {
+				for _, b := range bases {
+					if t == b {
+						hit = true
+					}
+				}
+			}
+		}
+		if hit {
+			e.what = "guard " + g.src
+			s.oblige("guarded", "", "guarded location accessed only while the guard holds: "+g.src, e.evalBool(g.e), in.Pos(), s.site(in), false)
+		}
+	}
 }
